@@ -257,17 +257,57 @@ extern "C" void h_entry()
             const auto r0 = a[0];
             if constexpr (OP == OP_ELEM_CTOR)
             {
-                try
+                usize how = verif_nondet_size();
+                verif_assume(how < 4);
+                how = verif_fork(how);
+                if (how == 0)
                 {
-                    Elem e(r0, EAlloc(ID_B));
-                    check_elem<LT>(typename Vec::reference(e), ma.e[0], 300);
+                    try
+                    {
+                        Elem e(r0, EAlloc(ID_B));
+                        check_elem<LT>(typename Vec::reference(e), ma.e[0], 300);
+                    }
+                    catch (const OOM&)
+                    {
+                        thrown = true;
+                    }
+                    verif_assert(verif_live_blocks() == blocks0, 9201);
+                    verif_assert(verif_live_objs() == objs0, 297);
                 }
-                catch (const OOM&)
+                else
                 {
-                    thrown = true;
+                    // construction from another element: plain copy, allocator-extended copy, allocator-extended move (unequal instance)
+                    const int saved = g_alloc_failures;
+                    g_alloc_failures = 1;
+                    Elem src(r0, EAlloc(ID_A));
+                    g_alloc_failures = saved;
+                    const usize blocks1 = verif_live_blocks(), objs1 = verif_live_objs();
+                    try
+                    {
+                        if (how == 1)
+                        {
+                            Elem e(src);
+                            check_elem<LT>(typename Vec::reference(e), ma.e[0], 300);
+                        }
+                        else if (how == 2)
+                        {
+                            Elem e(src, EAlloc(ID_B));
+                            check_elem<LT>(typename Vec::reference(e), ma.e[0], 300);
+                        }
+                        else
+                        {
+                            Elem e(std::move(src), EAlloc(ID_B));
+                            check_elem<LT>(typename Vec::reference(e), ma.e[0], 300);
+                        }
+                    }
+                    catch (const OOM&)
+                    {
+                        thrown = true;
+                        verif_assert(verif_live_blocks() == blocks1, 9201);
+                        verif_assert(verif_live_objs() == objs1, 297);
+                        check_elem<LT>(typename Vec::reference(src), ma.e[0], 400);  // nothing was transferred: the source is intact
+                    }
                 }
-                verif_assert(verif_live_blocks() == blocks0, 9201);
-                verif_assert(verif_live_objs() == objs0, 297);
                 inv<LT>(a, ma, 200);
             }
             else
